@@ -7,7 +7,7 @@ def render(op):
     f = {"get": O.get, "cget": O.cget, "pget": O.pget, "ls": O.ls, "pls": O.pls, "len": O.len, "set": O.set, "cset": O.cset,
          "del": O.delete, "pdel": O.pdelete, "pub": O.publish, "spubinit": O.spubinit, "spub": O.spub, "import": None,
          "sub": O.sub, "psub": O.psub, "unsub": O.unsub, "subls": O.subls, "unsubls": O.unsubls, "lock": O.lock,
-         "acq": O.acq, "rel": O.rel, "conn": O.conn, "disc": O.disc, "dump": O.dump}[k]
+         "acq": O.acq, "rel": O.rel, "conn": O.conn, "disc": O.disc, "dump": O.dump, "cgetr": O.cgetr, "csetr": O.csetr}[k]
     if k == "import":
         from gen import tree_of
         return O.imp(op[1] if isinstance(op[1], dict) and "data" in op[1] else tree_of(op[1]))
@@ -33,7 +33,14 @@ def names_of(tok):
 def mapspec_oracle(ops, lines, check_acceptance=True):
     """replays the implementation's answers against MapSpec; returns None or (step, message)"""
     sp = MapSpec()
+    mem = {}
     for i, op in enumerate(ops):
+        if op[0] == "cgetr":
+            r0 = res_of(lines[i]) if i < len(lines) else ""
+            mem[(op[1], op[2])] = int(r0.split(" ")[1]) if r0.startswith("cval") else 0
+            op = ("cget", op[2])
+        elif op[0] == "csetr":
+            op = ("cset", op[1], op[2], op[3], mem.get((op[1], op[2]), 0))
         if i >= len(lines):
             return (i, "implementation stopped answering (crash)")
         r = res_of(lines[i])
@@ -44,6 +51,8 @@ def mapspec_oracle(ops, lines, check_acceptance=True):
         if kind == "set":
             _, c, k, v, *rest = op
             force = rest[0] if rest else False
+            if check_acceptance and not force and r == "ok" and sp.version(k) != 0:
+                return (i, f"a plain set replaced the CAS-protected value of {k!r} (version {sp.version(k)})")
             if ok: sp.set(k, v)
         elif kind == "cset":
             _, c, k, v, ver, *rest = op
